@@ -2,6 +2,7 @@ import Kvass.Driver.Coord
 import Kvass.Driver.K8s
 import Kvass.Driver.Sidecar
 import Kvass.Driver.Store
+import Kvass.Driver.Proxy
 
 open Kvass.Driver
 
@@ -20,4 +21,5 @@ def main (args : List String) : IO UInt32 := do
   | ["k8s"] => loop stdin K8s.handle; return 0
   | ["sidecar"] => loop stdin Sidecar.handle; return 0
   | ["store"] => loop stdin Store.handle; return 0
+  | ["proxy"] => loop stdin Proxy.handle; return 0
   | _ => IO.eprintln "usage: driver <engine>"; return 2
